@@ -57,7 +57,8 @@ Verdicts(r) ==
   ELSE IF r.op = "merge" THEN
        IF r.opid # Len(opPar) + 1 THEN {"harness:bad-op-id"}
        ELSE {ViewVerdict(p, ToView(r.view)),
-             PredsVerdict(PairsToFn(r.preds), {}, (r.nold + 1)..Len(p)),
+             PredsVerdict(PairsToFn(r.preds), {},
+                          ((r.nold + 1)..Len(p)) \cap Visible(p, ToSet(r.view.heads))),
              IF r.kind = "pair" /\ Len(r.parents) = 2
              THEN MergeVerdict(p, c, d, e, PairsToFn(r.preds) @@ UnionPreds(1..Len(opPar)),
                                opView[r.base], opView[r.parents[1]], opView[r.parents[2]],
@@ -67,9 +68,9 @@ Verdicts(r) ==
        {WalkVerdict(UnionPreds(AncOps({r.at})), r.start, r.out, r.failed)}
   ELSE IF r.op = "panic" THEN
        IF r.call = "rebase"
+          /\ r.msg = "unexpected error: RewriteRootCommit(RewriteRootCommit)"
           /\ \E w \in 1..Len(r.v0.wc) :
-                /\ WcRewrittenThenAbandoned(RecsToFn(r.map), r.v0.wc[w])
-                /\ Root \in ResolveSet(RecsToFn(r.map), r.v0.wc[w])
+                LET k == r.v0.wc[w]  M == RecsToFn(r.map) IN k \in DOMAIN M /\ M[k].k # "ab"
        THEN {"Panic:rebase:wc-rewritten-then-abandoned-onto-root"}
        ELSE {"Panic"}
   ELSE {"harness:unknown-op"}
